@@ -17,6 +17,7 @@ import (
 
 	"verif/internal/ev"
 	"verif/internal/goat"
+	"verif/internal/rx"
 )
 
 func TestMain(m *testing.M) { ev.Main(m, "C10") }
@@ -127,28 +128,28 @@ type History struct {
 func genMut(n int) *rapid.Generator[Op] {
 	return rapid.Custom(func(rt *rapid.T) Op {
 		if rapid.Bool().Draw(rt, "mutIsDelete") {
-			return Op{Op: "delete", Key: rapid.IntRange(0, n-1).Draw(rt, "mkey")}
+			return Op{Op: "delete", Key: rx.Uniform(rt, n, "mkey")}
 		}
-		return Op{Op: "set", Key: rapid.IntRange(0, n-1).Draw(rt, "mkey")}
+		return Op{Op: "set", Key: rx.Uniform(rt, n, "mkey")}
 	})
 }
 
 func genOp(n int, nilMap bool) *rapid.Generator[Op] {
 	return rapid.Custom(func(rt *rapid.T) Op {
-		c := rapid.IntRange(0, 99).Draw(rt, "opkind")
+		c := rx.Uniform(rt, 100, "opkind")
 		switch {
 		case nilMap && c < 50:
-			return Op{Op: []string{"get", "getok", "len", "delete"}[c%4], Key: rapid.IntRange(0, n-1).Draw(rt, "key")}
+			return Op{Op: []string{"get", "getok", "len", "delete"}[c%4], Key: rx.Uniform(rt, n, "key")}
 		case nilMap:
 			return Op{Op: "range"}
 		case c < 28:
-			return Op{Op: "set", Key: rapid.IntRange(0, n-1).Draw(rt, "key")}
+			return Op{Op: "set", Key: rx.Uniform(rt, n, "key")}
 		case c < 50:
-			return Op{Op: "delete", Key: rapid.IntRange(0, n-1).Draw(rt, "key")}
+			return Op{Op: "delete", Key: rx.Uniform(rt, n, "key")}
 		case c < 60:
-			return Op{Op: "get", Key: rapid.IntRange(0, n-1).Draw(rt, "key")}
+			return Op{Op: "get", Key: rx.Uniform(rt, n, "key")}
 		case c < 70:
-			return Op{Op: "getok", Key: rapid.IntRange(0, n-1).Draw(rt, "key")}
+			return Op{Op: "getok", Key: rx.Uniform(rt, n, "key")}
 		case c < 76:
 			return Op{Op: "len"}
 		}
@@ -167,7 +168,7 @@ func genOp(n int, nilMap bool) *rapid.Generator[Op] {
 }
 
 func genHistory(rt *rapid.T) *History {
-	ki := rapid.IntRange(0, len(kinds)-1).Draw(rt, "kind")
+	ki := rx.Uniform(rt, len(kinds), "kind")
 	k := &kinds[ki]
 	n := len(k.Keys)
 	h := &History{Kind: k.Name, InFunc: rapid.Bool().Draw(rt, "inFunc")}
